@@ -25,6 +25,10 @@ pub struct GenCfg {
     pub arg_pool: usize,
     pub headers: bool,
     pub trailing_newline: bool,
+    /// percent chance (per member) of a sourceFile header in the middle of a class's members
+    pub pct_stray_source_file: u64,
+    /// percent chance (per class) of a class with 70..150 distinct obfuscated method names
+    pub pct_wide_class: u64,
 }
 
 impl GenCfg {
@@ -49,6 +53,8 @@ impl GenCfg {
             arg_pool: *rng.pick(&[1usize, 2, 4, 9]),
             headers: rng.chance(1, 2),
             trailing_newline: rng.chance(3, 4),
+            pct_stray_source_file: off(rng, 12),
+            pct_wide_class: if rng.chance(1, 12) { 20 } else { 0 },
         }
     }
 }
@@ -74,6 +80,8 @@ pub const ORIG_METHODS: &[&str] = &[
 pub const ARGS: &[&str] = &[
     "",
     "int",
+    "int, int",
+    " int",
     "int,int",
     "java.lang.String",
     "a.a",
@@ -199,9 +207,17 @@ pub fn gen_mapping(rng: &mut Rng, cfg: &GenCfg) -> Vec<u8> {
             push(&mut out, e);
         }
 
-        let n_members = rng.range(0, cfg.max_members);
+        let wide = rng.chance(cfg.pct_wide_class, 100);
+        let n_members = if wide { rng.range(70, 150) } else { rng.range(0, cfg.max_members) };
         let mut mi = 0;
         while mi < n_members {
+            if rng.chance(cfg.pct_stray_source_file, 100) {
+                // a sourceFile header after some members (or a second one for the same class)
+                let f = *rng.pick(FILES);
+                push(&mut out, &format!("# {{\"id\":\"sourceFile\",\"fileName\":\"{}\"}}", f));
+                let e = eol(rng, cfg);
+                push(&mut out, e);
+            }
             if rng.chance(cfg.pct_noise, 200) {
                 out.extend_from_slice(*rng.pick(NOISE));
                 let e = eol(rng, cfg);
@@ -219,7 +235,9 @@ pub fn gen_mapping(rng: &mut Rng, cfg: &GenCfg) -> Vec<u8> {
             }
             let obf_m: String = {
                 let base = OBF_METHODS[rng.usize_below(cfg.method_pool.min(OBF_METHODS.len()))];
-                if rng.chance(cfg.pct_long_name, 200) {
+                if wide {
+                    format!("m{}", mi)
+                } else if rng.chance(cfg.pct_long_name, 200) {
                     long_name(rng, base)
                 } else {
                     base.to_string()
@@ -320,6 +338,14 @@ pub fn gen_mapping(rng: &mut Rng, cfg: &GenCfg) -> Vec<u8> {
 /// Convenience: swarm config + mapping from one rng.
 pub fn gen_case(rng: &mut Rng, max_classes: u64, max_members: u64) -> (GenCfg, Vec<u8>) {
     let cfg = GenCfg::swarm(rng, max_classes, max_members);
+    let m = gen_mapping(rng, &cfg);
+    (cfg, m)
+}
+
+/// Like `gen_case`, but without wide classes (for enumerations that are quadratic in file size).
+pub fn gen_case_small(rng: &mut Rng, max_classes: u64, max_members: u64) -> (GenCfg, Vec<u8>) {
+    let mut cfg = GenCfg::swarm(rng, max_classes, max_members);
+    cfg.pct_wide_class = 0;
     let m = gen_mapping(rng, &cfg);
     (cfg, m)
 }
